@@ -520,7 +520,14 @@ impl ToBitStream for TrackNonCDDA {
         w.write_bit(self.non_audio)?;
         w.write_bit(self.pre_emphasis)?;
         w.pad(6 + 13 * 8)?;
-        w.write_from::<u8>(self.index_points.len().try_into().unwrap())?;
+        // the index point count is an 8-bit field, but a non-CD-DA
+        // track may hold 256 points (numbers 0 through 255)
+        w.write_from::<u8>(
+            self.index_points
+                .len()
+                .try_into()
+                .map_err(|_| Error::from(CuesheetError::InvalidIndexPoint))?,
+        )?;
         for point in self.index_points.iter() {
             w.build(point)?;
         }
